@@ -517,18 +517,31 @@ theorem size_mono (dim n bl : Nat) (hbl : bl ≤ 32)
     Nat.mul_le_mul_left _ h2
   omega
 
+/-- `geometryOfPoints` for arbitrary decoder options: the geometry `KdTreeAttributesDecoder`
+    assembles when the transforms of the types in `dopts.skip` are skipped -/
+def geometryOfPointsWith (dopts : DecOpts) (numPoints : Nat) (encs : List AttEnc) (pts : List (List Nat)) :
+    Geometry :=
+  let kas := kdAttsOf 0 encs
+  { isMesh := false, numPoints := numPoints, faces := [],
+    atts := Kd.zip3With (Kd.finishAttribute dopts numPoints) kas (encs.map (·.transform))
+              (kas.map fun ka => pts.map (Kd.attRow ka)) }
+
+theorem geometryOfPointsWith_default (n : Nat) (encs : List AttEnc) (pts : List (List Nat)) :
+    geometryOfPointsWith {} n encs pts = geometryOfPoints n encs pts := rfl
+
 /-- `KdTreeAttributesDecoder::DecodeAttributes` on the output of `KdTreeAttributesEncoder::EncodeAttributes`:
     the attributes are assembled from a permutation of the encoder's point vector -/
-theorem runsP_decodeKdAttributes (ch : Choices) (hpart : PartSpec ch.part) (n v level : Nat)
+theorem runsP_decodeKdAttributes_with (dopts : DecOpts) (ch : Choices) (hpart : PartSpec ch.part) (n v level : Nat)
     (encs : List AttEnc) (hne : encs ≠ []) (hf : ∀ e ∈ encs, EncFacts n e)
     (hl6 : level ≤ 6) (hsel : level = 6 → dimOf encs ≤ 16)
     (hsz : 32 * ((2 * dimOf encs + 3) * (n * (32 * dimOf encs + 1) + 1)) + 3 < 2 ^ 32) :
-    RunsP (decodeKdAttributes {} n (encs.map (·.desc))) v
+    RunsP (decodeKdAttributes dopts n (encs.map (·.desc))) v
       (level :: (Kd.encodePoints ch.part Generated.fastdivTab ch.zeroProbRaw level (dimOf encs)
           (numBits (pointVector n encs)) (pointVector n encs)
         ++ ((encs.flatMap fun e => quantParamBytes e.transform)
           ++ (encs.flatMap fun e => signedMinBytes e.transform))))
-      (fun atts => ∃ pts', pts'.Perm (pointVector n encs) ∧ atts = (geometryOfPoints n encs pts').atts) v := by
+      (fun atts => ∃ pts', pts'.Perm (pointVector n encs) ∧
+        atts = (geometryOfPointsWith dopts n encs pts').atts) v := by
   obtain ⟨pvl, pvr⟩ := pointVector_spec n encs hf
   obtain ⟨nb32, nbx⟩ := numBits_spec (pointVector n encs) (fun p hp => (pvr p hp).2)
   have hdim : 1 ≤ dimOf encs := by
@@ -566,5 +579,18 @@ theorem runsP_decodeKdAttributes (ch : Choices) (hpart : PartSpec ch.part) (n v 
   refine RunsP.bindR (runs_quantParams n v encs 0 hf) ?_
   refine RunsP.bindR' (runs_signedMins n v encs 0 hf) (List.append_nil _).symm ?_
   exact RunsP.pure _ v ⟨dp.2, dp2, rfl⟩
+
+/-- the ordinary decode (`DecOpts = {}`) -/
+theorem runsP_decodeKdAttributes (ch : Choices) (hpart : PartSpec ch.part) (n v level : Nat)
+    (encs : List AttEnc) (hne : encs ≠ []) (hf : ∀ e ∈ encs, EncFacts n e)
+    (hl6 : level ≤ 6) (hsel : level = 6 → dimOf encs ≤ 16)
+    (hsz : 32 * ((2 * dimOf encs + 3) * (n * (32 * dimOf encs + 1) + 1)) + 3 < 2 ^ 32) :
+    RunsP (decodeKdAttributes {} n (encs.map (·.desc))) v
+      (level :: (Kd.encodePoints ch.part Generated.fastdivTab ch.zeroProbRaw level (dimOf encs)
+          (numBits (pointVector n encs)) (pointVector n encs)
+        ++ ((encs.flatMap fun e => quantParamBytes e.transform)
+          ++ (encs.flatMap fun e => signedMinBytes e.transform))))
+      (fun atts => ∃ pts', pts'.Perm (pointVector n encs) ∧ atts = (geometryOfPoints n encs pts').atts) v :=
+  runsP_decodeKdAttributes_with {} ch hpart n v level encs hne hf hl6 hsel hsz
 
 end Draco.KdEnc
